@@ -261,7 +261,12 @@ print(json.dumps({"left": left, "fd0": zero}))
         p = subprocess.run([sys.executable, sf], env=dict(os.environ), capture_output=True, timeout=120)
         b.case()
         if p.returncode != 0:
-            b.inconc(f"no-stdin child could not run: rc={p.returncode} {p.stderr[-300:]!r}")
+            err = p.stderr.decode("utf8", "replace")
+            if "instance limit" in err or "Errno 24" in err or "watch limit" in err:
+                # the per-user inotify limits are shared with every other job on the machine: not a verdict
+                b.count("cases_skipped_for_lack_of_inotify_instances")
+                return
+            b.inconc(f"no-stdin child could not run: rc={p.returncode} {err[-600:]!r}")
             return
         import json as _json
 
